@@ -15,9 +15,14 @@ var checks = map[string]func(*lib.Run){
 	"C06": lib.CheckC06,
 	"C11": lib.CheckC11,
 	"C12": lib.CheckC12,
+	"C13": lib.CheckC13,
 	"C14": lib.CheckC14,
+	"C15": lib.CheckC15,
 	"C16": lib.CheckC16,
+	"C09": lib.CheckC09,
+	"C10": lib.CheckC10,
 	"C17": lib.CheckC17,
+	"C20": lib.CheckC20,
 }
 
 func main() {
